@@ -49,7 +49,8 @@ type OpID struct {
 
 // Txn is one ledger transaction of a sequence.
 type Txn struct {
-	Kind       string   `json:"kind"` // valid | bad-anchor | missing-file | corrupt-file | duplicates | unknown-version
+	Kind       string   `json:"kind"`                // valid | bad-anchor | missing-file | corrupt-file | duplicates | unknown-version | unknown-namespace
+	Namespace  string   `json:"namespace,omitempty"` // "" = the configured namespace
 	Anchor     string   `json:"anchor"`
 	Time       uint64   `json:"time"`
 	Number     uint64   `json:"number"`
@@ -70,6 +71,16 @@ type Case struct {
 	K      int               `json:"k"`                // 1-based index of the failing call
 	Via    string            `json:"via"`              // observer | direct
 	Chunks []int             `json:"chunks,omitempty"` // sizes of the notification slices (observer)
+	// MinGenesis is the genesis time of the first protocol version (0 by default); transactions stamped with a lower
+	// protocol version cannot be resolved by the protocol client
+	MinGenesis uint64 `json:"minGenesis,omitempty"`
+}
+
+func nsOf(t Txn) string {
+	if t.Namespace != "" {
+		return t.Namespace
+	}
+	return ns
 }
 
 func init() {
@@ -152,7 +163,7 @@ func newEnv(c *Case) *env {
 		}
 	}
 	var vs []protocol.Version
-	for _, g := range []uint64{0, 100} {
+	for _, g := range []uint64{c.MinGenesis, 100} {
 		p := wire.BaseProtocol()
 		p.GenesisTime = g
 		p.MultihashAlgorithms = []uint{uint(c.Code)}
@@ -193,11 +204,14 @@ func run(c *Case, fault string, k int) (puts [][]*operation.AnchoredOperation, c
 	}
 	var txns []txn.SidetreeTxn
 	for _, t := range c.Txns {
-		txns = append(txns, txn.SidetreeTxn{TransactionTime: t.Time, TransactionNumber: t.Number, AnchorString: t.Anchor, Namespace: ns, ProtocolVersion: t.Version,
+		txns = append(txns, txn.SidetreeTxn{TransactionTime: t.Time, TransactionNumber: t.Number, AnchorString: t.Anchor, Namespace: nsOf(t), ProtocolVersion: t.Version,
 			CanonicalReference: t.Canonical, EquivalentReferences: append([]string{}, t.Equivalent...)})
 	}
 	if c.Via == "direct" {
 		for _, t := range txns {
+			if t.Namespace != ns {
+				continue // no protocol client for that namespace
+			}
 			v, err := e.pc.Get(t.ProtocolVersion)
 			if err != nil {
 				continue
@@ -253,7 +267,7 @@ func evalCase(c *Case) (string, string, string) {
 		puts := 0
 		for i, t := range c.Txns {
 			st := txn.SidetreeTxn{TransactionTime: t.Time, TransactionNumber: t.Number, AnchorString: t.Anchor, Namespace: ns, ProtocolVersion: t.Version}
-			if va, err := ea.pc.Get(t.Version); err == nil {
+			if va, err := ea.pc.Get(t.Version); err == nil && nsOf(t) == ns {
 				var ops []*operation.AnchoredOperation
 				var perr error
 				if pn := ev.Catch(func() { ops, perr = va.OperationProvider().GetTxnOperations(&st) }); pn != "" {
@@ -270,7 +284,7 @@ func evalCase(c *Case) (string, string, string) {
 				}
 			}
 			spans[i].readsFrom = int(reads) + 1
-			if vb, err := eb.pc.Get(t.Version); err == nil {
+			if vb, err := eb.pc.Get(t.Version); err == nil && nsOf(t) == ns {
 				_, _ = vb.TransactionProcessor().Process(st)
 			}
 			reads = eb.cas.Reads
@@ -370,16 +384,26 @@ func putSummary(puts [][]*operation.AnchoredOperation) string {
 var typeRank = map[string]int{"create": 0, "recover": 1, "update": 2, "deactivate": 3}
 
 func TestTransactionsWithFaults(t *testing.T) {
-	ev.Rule(chkTxn, "rapid sequences of 1-8 transactions: valid (files written by the real handler for a generated batch, possibly with repeated suffixes queued), unreadable (malformed anchor string, missing file, corrupt file), duplicate-carrying (stub provider returning one suffix twice), unknown protocol version; distinct time / number / version / canonical / equivalent references; processed through the real Observer (drawn notification slicing, completion via a sentinel transaction) and directly through TxnProcessor.Process; for each sequence EVERY fault position is enumerated: each CAS read k, each OpStore.Put call k, each unpublished DeleteAll call k, plus the fault-free run; oracle (store-state): the log of successful atomic writes == one write per good, un-faulted transaction, in order, holding exactly the first operation per suffix, each stamped with the transaction's time, number, protocol version, canonical and equivalent references; nothing for bad transactions; non-trivial = a bad transaction followed by a good one, or a fault, or a duplicate suffix")
+	ev.Rule(chkTxn, "rapid sequences of 1-8 transactions: valid (files written by the real handler for a generated batch, possibly with repeated suffixes queued), unreadable (malformed anchor string, missing file, corrupt file), duplicate-carrying (stub provider returning one suffix twice), a protocol version the protocol client cannot resolve, a namespace without protocol client (runs of equal kinds and versions are frequent); distinct time / number / version / canonical / equivalent references; processed through the real Observer (drawn notification slicing, completion via a sentinel transaction) and directly through TxnProcessor.Process; for each sequence EVERY fault position is enumerated: each CAS read k, each OpStore.Put call k, each unpublished DeleteAll call k, plus the fault-free run; oracle (store-state): the log of successful atomic writes == one write per good, un-faulted transaction, in order, holding exactly the first operation per suffix, each stamped with the transaction's time, number, protocol version, canonical and equivalent references; nothing for bad transactions; non-trivial = a bad transaction followed by a good one, or a fault, or a duplicate suffix")
 	ev.Rapid(t, chkTxn, 150, 1500, func(t *rapid.T) {
 		code := rapid.SampledFrom([]uint64{asm.SHA256, asm.SHA512}).Draw(t, "hash")
-		c := &Case{Code: code, Files: map[string][]byte{}}
+		c := &Case{Code: code, Files: map[string][]byte{}, MinGenesis: uint64(rapid.SampledFrom([]int{0, 10}).Draw(t, "minGenesis"))}
 		n := rapid.IntRange(1, 8).Draw(t, "txns")
+		prevKind, prevVersion := "", uint64(0)
 		p := wire.BaseProtocol()
 		p.MultihashAlgorithms = []uint{uint(code)}
 		for i := 0; i < n; i++ {
-			kind := rapid.SampledFrom([]string{"valid", "valid", "valid", "bad-anchor", "missing-file", "corrupt-file", "duplicates", "unknown-version"}).Draw(t, "txnKind")
-			tx := Txn{Kind: kind, Time: uint64(1000 + 10*i + rapid.IntRange(0, 5).Draw(t, "dt")), Number: uint64(rapid.IntRange(0, 50).Draw(t, "number")), Version: uint64(rapid.SampledFrom([]int{0, 100}).Draw(t, "version")),
+			kind := rapid.SampledFrom([]string{"valid", "valid", "valid", "bad-anchor", "missing-file", "corrupt-file", "duplicates", "unknown-version", "unknown-namespace"}).Draw(t, "txnKind")
+			version := uint64(rapid.SampledFrom([]int{int(c.MinGenesis), 100}).Draw(t, "version"))
+			if kind == "unknown-version" && c.MinGenesis > 0 {
+				version = uint64(rapid.SampledFrom([]int{3, 5}).Draw(t, "unresolvableVersion"))
+			}
+			// runs: now and then the next transaction repeats the kind (and version) of its predecessor
+			if i > 0 && rapid.IntRange(0, 3).Draw(t, "repeatPrevious") == 0 {
+				kind, version = prevKind, prevVersion
+			}
+			prevKind, prevVersion = kind, version
+			tx := Txn{Kind: kind, Time: uint64(1000 + 10*i + rapid.IntRange(0, 5).Draw(t, "dt")), Number: uint64(rapid.IntRange(0, 50).Draw(t, "number")), Version: version,
 				Canonical: fmt.Sprintf("canon-%d", i), Equivalent: []string{fmt.Sprintf("eq-%d-a", i), fmt.Sprintf("eq-%d-b", i)}[:rapid.IntRange(0, 2).Draw(t, "equivalents")]}
 			cas := wire.NewMemCAS()
 			v := wire.Build(p, wire.Deps{CAS: cas})
@@ -427,9 +451,12 @@ func TestTransactionsWithFaults(t *testing.T) {
 				tx.Dup = []OpID{{"update", "sfx-a"}, {"create", "sfx-b"}, {"deactivate", "sfx-a"}}
 				tx.Expect = []OpID{{"update", "sfx-a"}, {"create", "sfx-b"}}
 			case "unknown-version":
-				tx.Version = 0
-				tx.Expect = included // version 0 exists: this is a valid one under the first version
-				tx.Kind = "valid"
+				if c.MinGenesis == 0 {
+					tx.Expect = included // every version number resolves: a valid one under the first version
+					tx.Kind = "valid"
+				}
+			case "unknown-namespace":
+				tx.Namespace = "did:othermethod"
 			}
 			for a, b := range files {
 				c.Files[a] = b
